@@ -391,6 +391,19 @@ def oracle_c01(ctx, focus, langs=None):
         f2, n2 = _check_val_and_text(ctx, "c01v" + lang, lang, b, with_text=False)
         failures += f1 + f2
         n += n1 + n2
+        # the same inside LONG sentences: z ordinary words before and after, z a size mined from the source (srcmine.py)
+        wd = CONTEXT[lang][0].split(" ")[0]
+        far, freq = [], []
+        for z in _srcmine.sizes(41, 20000):
+            for (g, ph, exp) in cases[:: max(1, len(cases) // 3)][:3]:
+                far.append((z, g, ph, exp))
+                freq.append("text\t%s\t%s\t%s" % (lang, THR0, esc((wd + " ") * z + ph + (" " + wd) * z)))
+        for (z, g, ph, exp), o in zip(far, run_impl(ctx, "c01far" + lang, freq) if freq else []):
+            n += 1
+            if unesc(o) != (wd + " ") * z + unesc(exp) + (" " + wd) * z:
+                k_ = unesc(o)[max(0, z * (len(wd) + 1) - 20): z * (len(wd) + 1) + len(ph) + 20]
+                failures.append(fail("%d x '%s' + %s + %d x '%s'" % (z, wd, ph, z, wd), "rewrite -> ... " + k_ + " ...", unesc(exp),
+                                     ["text\t%s\t%s\t%s" % (lang, THR0, esc((wd + " ") * z + ph + (" " + wd) * z))], lang=lang, gen=g, what="rewrite-far"))
         distinct |= {(lang, c[1]) for c in cases}
         if cases:
             ctx.samples.setdefault("c01", []).append({"lang": lang, "phrase": cases[len(cases) // 2][1], "expected": unesc(cases[len(cases) // 2][2])})
